@@ -10,6 +10,14 @@ namespace Jose
 
 abbrev Bs := List Nat   -- byte strings in the model
 
+/-- RSA private key material as imported from a JWK: OpenSSL uses the CRT parameters when all
+    five are present (falling back to `d` if their result does not verify), else `d` -/
+structure RsaPriv where
+  n : Bs
+  e : Bs
+  d : Option Bs
+  crt : Option (Bs × Bs × Bs × Bs × Bs)     -- p, q, dp, dq, qi
+
 structure Prims where
   /-- digest by jose hash name (S1, S224, S256, S384, S512); `none` for unknown names -/
   hash : String → Option (Bs → Bs)
@@ -23,8 +31,8 @@ structure Prims where
   ecdsaSign : String → Bs → Bs → Bs → Option (Bs × Bs) := fun _ _ _ _ => none
   /-- `EVP_DigestVerifyFinal` for RSA: pss?, hash name, n, e, message, signature -/
   rsaVerify : Bool → String → Bs → Bs → Bs → Bs → Bool := fun _ _ _ _ _ _ => false
-  /-- `EVP_DigestSignFinal` for RSA: pss?, hash name, n, d, message, salt -/
-  rsaSign : Bool → String → Bs → Bs → Bs → Bs → Option Bs := fun _ _ _ _ _ _ => none
+  /-- `EVP_DigestSignFinal` for RSA: pss?, hash name, private key, message, salt -/
+  rsaSign : Bool → String → RsaPriv → Bs → Bs → Option Bs := fun _ _ _ _ _ => none
   /-- `EC_KEY_generate_key` on a named curve from randomness: (d, x, y), each of the curve's width -/
   ecGen : String → Bs → Option (Bs × Bs × Bs) := fun _ _ => none
   /-- `RSA_generate_key_ex`: bits, public exponent (as a number), randomness → members by name -/
@@ -45,8 +53,8 @@ structure Prims where
   kwUnwrap : Bs → Bs → Option Bs := fun _ _ => none
   /-- RSAES: oaep hash (`none` = PKCS#1 v1.5), n, e, message, randomness -/
   rsaEnc : Option String → Bs → Bs → Bs → Bs → Option Bs := fun _ _ _ _ _ => none
-  /-- RSAES decryption: oaep hash, n, d, ciphertext -/
-  rsaDec : Option String → Bs → Bs → Bs → Option Bs := fun _ _ _ _ => none
+  /-- RSAES decryption: oaep hash, private key, ciphertext -/
+  rsaDec : Option String → RsaPriv → Bs → Option Bs := fun _ _ _ => none
   /-- PBKDF2-HMAC: hash name, password, salt, iterations, length; `none` when OpenSSL refuses (iterations < 1) -/
   pbkdf2 : String → Bs → Bs → Int → Nat → Option Bs := fun _ _ _ _ _ => none
   /-- raw DEFLATE as jose drives zlib: compress everything; decompress (`none` = data error) -/
